@@ -258,6 +258,14 @@ func (r *Run) Violation(sig, msg string, replay any) {
 	r.mu.Unlock()
 }
 
+// HasViolation reports whether a violation with this signature was recorded.
+func (r *Run) HasViolation(sig string) bool {
+	r.mu.Lock()
+	defer r.mu.Unlock()
+	_, ok := r.violations[sig]
+	return ok
+}
+
 // ViolationCount returns the number of distinct violation signatures.
 func (r *Run) ViolationCount() int {
 	r.mu.Lock()
